@@ -469,10 +469,12 @@ class _WState(object):
                 self.env[name] = self.subst(v)
                 return []
             # res = <bytes expr>
-            try:
-                its = self.value_items(v)
-            except Undecided:
-                its = None
+            its = None
+            if name in self._augmented():
+                try:
+                    its = self.value_items(v)
+                except Undecided:
+                    its = None
             if its is not None:
                 self.bufs[name] = its
             c = eng.class_of_expr(v, fi, self.local_types)
@@ -504,6 +506,13 @@ class _WState(object):
         if any(_touches(s, st) for st in self.streams):
             raise Undecided('unmodelled writer statement: %s' % norm(s)[:80], s)
         return []
+
+    def _augmented(self):
+        """names that are built up with `name += ...` somewhere in the function: concatenation buffers"""
+        if not hasattr(self, '_aug'):
+            self._aug = {n.target.id for n in ast.walk(self.fi.node)
+                         if isinstance(n, ast.AugAssign) and isinstance(n.target, ast.Name) and isinstance(n.op, ast.Add)}
+        return self._aug
 
     def _writes_buf(self, s):
         for n in ast.walk(s):
